@@ -136,7 +136,7 @@ def c09_wide_boundary(n):
 
 def c09_declarations(tier):
     decls = []
-    for n in ((3, 6, 8) if tier == 'quick' else (3, 4, 5, 6, 7, 8)):
+    for n in ((3, 4, 5, 6, 7, 8) if tier == 'quick' else (2, 3, 4, 5, 6, 7, 8, 9, 10, 11, 12)):
         decls += c09_small_product(n)
     wide = (16, 12, 32, 24, 64, 40, 128, 100, 127, 1) if tier == 'quick' else \
         sorted(set(range(1, 128)) - set(NATIVE) | {8, 16, 32, 64, 128})
